@@ -41,6 +41,7 @@ Fixpoint shape0 (e:expr) : Prop :=
   | Const c => show_num c <> None
   | Var v => Lexer.is_alpha v = true
   | Un UFact c => (exists n, c = Const n) /\ shape0 c
+  | Un UAbs _ => False
   | Un _ c => shape0 c
   | Bin KEq _ _ => False
   | Bin _ l r => shape0 l /\ shape0 r end.
@@ -73,7 +74,7 @@ Proof.
   induction e as [c|v|u c IH|k l IHl r IHr]; cbn [sk0 shape0 vars consts]; intros S V K.
   - apply K. now left.
   - apply V. now left.
-  - destruct u; try (apply IH; assumption). split; [exact S|]. destruct S as (n & ->). cbn [shape0]. apply K. now left.
+  - destruct u; try (apply IH; assumption); try contradiction. split; [exact S|]. destruct S as (n & ->). cbn [shape0]. apply K. now left.
   - destruct k; try contradiction; destruct S as (S1 & S2); (split; [apply IHl|apply IHr]); auto; intros x Hx; (apply V || apply K); apply in_or_app; auto.
 Qed.
 Lemma sk1_shape e : sk1 e -> (forall v, In v (vars e) -> Lexer.is_alpha v = true) -> (forall c, In c (consts e) -> show_num c <> None) -> shape e.
